@@ -329,7 +329,7 @@ Proof.
   { unfold split_host_port. destruct (split_last c_colon s) as [[a b]|] eqn:El; [|reflexivity].
     destruct (split_last_spec _ _ _ _ El) as [Es _]. rewrite Es, has_app in A. simpl in A.
     rewrite orb_true_r in A. discriminate. }
-  rewrite E. cbn [negb is_nil]. cbv iota. rewrite Enil. exact D.
+  rewrite E. change (is_nil (@nil ascii)) with true. cbn [negb]. cbv iota. exact D.
 Qed.
 
 (* D23: the tree as found refuses every endpoint whose port is the numeral of 32768..65535 *)
